@@ -321,6 +321,26 @@ def judge_builtin(res, xmlschema, etree, schema, st, arb, typ, version, t):
         else:
             if isinstance(doc_dec, str):
                 res.violation(f'datetime_types-option-returns-text:{typ}', case, f'{t!r}: {doc_dec!r}')
+        # every combination of the three options: a value is typed exactly when the option of its own family is set
+        own = 'decimal_type' if typ == 'decimal' else 'binary_types' if typ in ('hexBinary', 'base64Binary') else 'datetime_types'
+        for dt in (False, True):
+            for bt in (False, True):
+                for dec_t in (None, str):
+                    opts = {'datetime_types': dt, 'binary_types': bt, 'decimal_type': dec_t}
+                    try:
+                        got = schema.decode(doc, **{k: v for k, v in opts.items() if v})
+                    except xmlschema.XMLSchemaException as e:
+                        res.violation(f'typed-decode-raised:{typ}', case, f'{typ} {t!r} {opts}: {e!r}'[:200])
+                        continue
+                    if got is None:
+                        continue     # an empty element has no value to type
+                    res.count('typed:option_matrix')
+                    is_text = isinstance(got, str)
+                    want_text = (dec_t is str) if typ == 'decimal' else not opts[own]
+                    if is_text != want_text:
+                        fam = 'decimal' if typ == 'decimal' else 'binary' if own == 'binary_types' else 'date-or-duration'
+                        res.violation(f'typed-decoding-option-not-honoured:{fam}:{own}={"on" if opts[own] else "off"}', case,
+                                      f'{typ} {t!r} with {opts}: decoded {got!r} ({type(got).__name__})')
 
 
 # ---------------------------------------------------------------------------------------------
